@@ -462,14 +462,23 @@ pub fn run_c16(ctx: &Ctx) -> i32 {
             .into_iter()
             .filter(|i| !matches!(i[0], Call::ReadDir(_) | Call::Exists(_)))
             .collect();
+        // ... and a reader against two mutating calls (a file replaced by a directory in between)
+        let observers: Vec<Vec<Call>> = vec![
+            vec![Call::ReadAll("/a")],
+            vec![Call::ReadAll("/a/f")],
+            vec![Call::ReadDir("/a")],
+            vec![Call::Metadata("/a")],
+            vec![Call::Metadata("/a/f")],
+            vec![Call::Exists("/a/f")],
+        ];
         for init in inits16() {
             for a in &muts {
                 for b in &muts {
                     let mut two = a.clone();
                     two.extend(b.iter().cloned());
-                    for c in &muts {
+                    for c in muts.iter().chain(observers.iter()) {
                         programs.push((
-                            "2 threads x (2,1) mutating calls/sessions on {/a,/a/f}".into(),
+                            "2 threads x (2,1) calls/sessions on {/a,/a/f}: two mutators against a mutator or an observer".into(),
                             LinProgram {
                                 init: init.clone(),
                                 threads: vec![two.clone(), c.clone()],
